@@ -36,7 +36,7 @@ THEOREMS = [P + n for n in (
     'pkl_append_keeps_first',
     # objects after arbitrary histories over the operation alphabets of C10 / C11
     'roundtrip_after_c10_history', 'roundtrip_after_c11_history',
-    # round 4: a path handed over as pathlib.Path / os.PathLike / bytes (the guard tests str only)
+    # round 4 / 4b: a path handed over as pathlib.Path / os.PathLike / bytes (covered by the guard like a str)
     'no_overwrite_guard_pathlike', 'existing_path_never_replaced', 'pkl_path_exact',
     'autodetect_str_only')]
 RULE = ('one PRNG; a case = 1-3 objects of the five kinds (RDMs, Dataset / DatasetBase / TemporalDataset, 5 model '
@@ -94,8 +94,8 @@ ASSUMPTIONS = [
 TRUSTED_EXTRA = [
     'h5py: a group is a finite map from names to datasets/groups plus string attributes; what '
     'is written is what is read; File(path, "a") creates a missing file and opens an existing one without '
-    'touching it; creating a dataset / group whose name is taken raises and writes nothing (this, not the '
-    'ValueError guard, is what refuses a second save through a pathlib.Path)',
+    'touching it; creating a dataset / group whose name is taken raises and writes nothing (what refuses a '
+    'second save into a used open handle; paths of every kind are refused by the ValueError guard)',
     'pickle: load(dump(d)) == d for dictionaries of str / numbers / numpy arrays / lists',
     'CPython str.encode("utf-8") / bytes.decode("utf-8") are inverse (model: String.toUTF8 / fromUTF8?)',
     'listing order of dictionary keys / HDF5 members is unobservable',
@@ -592,6 +592,16 @@ def gen_pathlike(rng):
                 ops += [{'do': 'save', 'obj': 1, 'target': t, 'ft': 'hdf5', 'overwrite': True, 'via': via},
                         {'do': 'load', 'kind': a['kind'], 'target': t, 'ft': 'hdf5', 'via': via}]
             yield {'objs': [a, b], 'ops': ops}
+    # an existing file that holds an object of ANOTHER kind: refused all the same, nothing merged in
+    for via in ('Path', 'PathLike', 'bytes', 'str'):
+        ka, kb = rng.sample(kinds, 2)
+        a, b = gen_obj(rng, ka), gen_obj(rng, kb)
+        t = {'path': True, 'id': 0, 'name': '.h5'}
+        yield {'objs': [a, b], 'ops': [
+            {'do': 'save', 'obj': 0, 'target': t, 'ft': 'hdf5', 'overwrite': False, 'via': rng.choice([via, 'str'])},
+            {'do': 'save', 'obj': 1, 'target': t, 'ft': 'hdf5', 'overwrite': False, 'via': via},
+            {'do': 'load', 'kind': a['kind'], 'target': t, 'ft': 'hdf5', 'via': via},
+            {'do': 'load', 'kind': b['kind'], 'target': t, 'ft': 'hdf5'}]}
     # one file, two ways of naming it
     for kind in kinds:
         first, second = rng.choice([('str', 'Path'), ('Path', 'str'), ('bytes', 'Path'), ('Path', 'PathLike')])
@@ -847,25 +857,10 @@ def _fail(case, i, symptom, what, observed, expected, op, spec):
         _has(spec, lambda d: d.get('py') == 'nd' and d.get('dtype') == 'O')
         or ((f['has_nlist'] or f['has_hlist']) and any(
             h and h[0] in ('time_as_observations', 'time_as_channels') for h in (spec.get('history') or []))))
-    via = f.get('via', 'str')
-    obs = str(observed)
-    if via != 'str' and f.get('ft') == 'pkl' and ("must have a 'write' attribute" in obs
-                                                   or "must have 'read' and 'readline'" in obs):
-        # pickle.dump / pickle.load handed a path object instead of a file (only a `str` is opened);
-        # with overwrite the file was removed before (symptom failed-save-file:replaced)
-        f['defect'] = 'pathlike-target'
-    elif via == 'PathLike' and op.get('overwrite') and symptom == 'overwrite-not-exact' and 'merged' in obs:
-        # remove_file knows str and pathlib.Path only: the file stays and the new members are merged in
-        f['defect'] = 'pathlike-target'
-    elif via == 'PathLike' and op.get('overwrite') \
-            and ('name already exists' in obs or 'file signature not found' in obs) \
-            and symptom.split(':')[0] in ('save-error', 'failed-save-file') and 'replaced' not in symptom:
-        # remove_file knows str and pathlib.Path only: the file stays and h5py refuses the members
-        f['defect'] = 'pathlike-target'
-    elif via != 'str' and symptom == 'guard-file:merged':
-        # the existence guard covers str only: a file holding an object of *another* kind is merged
-        # into (every member it had is still there, unchanged)
-        f['defect'] = 'pathlike-merge'
+    # (round 4b: the findings pathlike-target / pathlike-merge are repaired in /repo; a failure on a
+    #  path that is no str is a failure like any other)
+    if False:
+        pass
     elif symptom == 'save-error:UnicodeEncodeError':
         f['defect'] = 'unicode-array'
     elif symptom in ('save-error:ValueError', 'save-error:TypeError') and f['has_hlist'] \
